@@ -486,3 +486,48 @@ Proof.
     match goal with |- (if ?c then _ else _) = _ => assert (Hc' : c = false); [|rewrite Hc'; reflexivity] end.
     apply N.ltb_ge. lia.
 Qed.
+
+Lemma decode_encode_nodata : forall nref r block,
+  wf r -> r_data r = [] -> lenN (r_cigar r) <= 65535 ->
+  encode nref r = Ok block -> decode block = Ok (norm r).
+Proof.
+  intros nref r block Hwf Hd Hc H. unfold encode in H. bind_ok H body Eb.
+  destruct (lenN body <? 4294967296) eqn:El; [|discriminate H].
+  assert (Hblock : block = leW 4 (lenN body) ++ body) by (injection H as H; rewrite <- H; reflexivity).
+  subst block. destruct (body_roundtrip_nodata _ _ _ Hwf Hd Hc Eb) as [Hdec Hval].
+  unfold decode. rewrite rdW_leW by (rewrite pow256_4; lia).
+  rewrite <- (app_nil_r body) at 2. rewrite takeN_app.
+  unfold decode_record. rewrite Hval. cbn [bindr]. exact Hdec.
+Qed.
+
+(* the stored bin of an accepted record is reg2bin 14 5 of its span (coordinates <= 2^29) *)
+Lemma encode_body_bin : forall nref r body s,
+  encode_body nref r = Ok body -> r_pos r = Some s -> 1 <= s ->
+  alignment_end s (r_cigar r) <= 2 ^ 29 ->
+  rdW 2 (skipn 10 body) = Some (reg2bin 14 5 s (alignment_end s (r_cigar r)), skipn 12 body).
+Proof.
+  intros nref r body s H Hp Hs He. unfold encode_body in H.
+  bind_ok H ridb Erid. bind_ok H posb Epos. bind_ok H lnb Eln.
+  destruct (cigar_slot (lenN (r_seq r)) (r_cigar r)) as [[nops slot] ov].
+  match type of H with bindr ?e _ = _ => destruct e as [lsq|] eqn:Els; cbn [bindr] in H; [|discriminate H] end.
+  bind_ok H mridb Emrid. bind_ok H mposb Empos. bind_ok H nameb Ename. bind_ok H cigb Ecig.
+  bind_ok H sqb Esq. bind_ok H qlb Eql. bind_ok H dtb Edt. bind_ok H cgb Ecg.
+  destruct (rid_roundtrip _ _ _ Erid) as (n1 & -> & _ & _).
+  assert (Hposb : exists n2, posb = leW 4 n2).
+  { rewrite Hp in Epos. cbn [enc_pos] in Epos. cbv zeta in Epos.
+    destruct (s - 1 <=? i32_max); [|discriminate Epos]. exists (s - 1).
+    injection Epos as Epos. rewrite <- Epos. reflexivity. }
+  destruct Hposb as (n2 & ->).
+  destruct (enc_name_len_ok _ _ Eln) as (ln & -> & _ & _).
+  assert (Hbody : body = leW 4 n1 ++ leW 4 n2 ++ [ln] ++ enc_mapq (r_mapq r) ++
+            leW 2 (bin_of (r_pos r) (r_cigar r)) ++ (leW 2 nops ++ leW 2 (r_flags r) ++ lsq ++ mridb ++ mposb ++
+            enc_num 4 (r_tlen r) ++ nameb ++ cigb ++ sqb ++ qlb ++ dtb ++ cgb))
+    by (injection H as H; rewrite <- H; reflexivity).
+  subst body. unfold enc_mapq.
+  change (leW 4 n1) with [n1 mod 256; (n1 / 256) mod 256; (n1 / 256 / 256) mod 256; (n1 / 256 / 256 / 256) mod 256].
+  change (leW 4 n2) with [n2 mod 256; (n2 / 256) mod 256; (n2 / 256 / 256) mod 256; (n2 / 256 / 256 / 256) mod 256].
+  cbn [app skipn]. rewrite Hp. rewrite (bin_exact s (r_cigar r) Hs He).
+  pose proof (bin_lt (Some s) (r_cigar r)) as Hlt. rewrite (bin_exact s (r_cigar r) Hs He) in Hlt.
+  rewrite rdW_leW by exact Hlt.
+  remember (reg2bin 14 5 s (alignment_end s (r_cigar r))) as b eqn:Eb. cbn [leW app skipn]. reflexivity.
+Qed.
